@@ -261,4 +261,111 @@ func runC11(c *bx.Ctx) {
 			rec()
 		}
 	}
+	c11Coinciding(c, kinds)
+}
+
+// c11RefCNAME reads the documented answer off a compound: the text of the first CNAME item of the first
+// later packet that is not an RR, if that packet is an SDES.
+func c11RefCNAME(seq rtcp.CompoundPacket) (string, bool) {
+	if len(seq) == 0 {
+		return "", false
+	}
+	switch seq[0].(type) {
+	case *rtcp.SenderReport, *rtcp.ReceiverReport:
+	default:
+		return "", false
+	}
+	for _, m := range seq[1:] {
+		if _, ok := m.(*rtcp.ReceiverReport); ok {
+			continue
+		}
+		sd, ok := m.(*rtcp.SourceDescription)
+		if !ok {
+			return "", false
+		}
+		for _, ch := range sd.Chunks {
+			for _, it := range ch.Items {
+				if it.Type == rtcp.SDESCNAME {
+					return it.Text, true
+				}
+			}
+		}
+		return "", false
+	}
+	return "", false
+}
+
+// c11Coinciding: the kinds carry pairwise distinct SSRC values, so nothing in the main space makes a
+// source of one member equal to a field of another. Here every sequence of two or three members (plus an
+// SDES with two CNAME chunks) is rebuilt with every pair of its 32-bit fields made equal, and the
+// answers that must not depend on such coincidences are compared again.
+func c11Coinciding(c *bx.Ctx, kinds []c11kind) {
+	c.Space("coinciding-ssrcs")
+	item := func(t rtcp.SDESType, s string) rtcp.SourceDescriptionItem { return rtcp.SourceDescriptionItem{Type: t, Text: s} }
+	ks := append([]c11kind{}, kinds...)
+	ks = append(ks, c11kind{name: "SDES-two-cname-chunks", isSDES: true, hasCN: true, cname: "one@x", p: &rtcp.SourceDescription{Chunks: []rtcp.SourceDescriptionChunk{
+		{Source: 21, Items: []rtcp.SourceDescriptionItem{item(rtcp.SDESCNAME, "one@x")}}, {Source: 22, Items: []rtcp.SourceDescriptionItem{item(rtcp.SDESCNAME, "two@x")}}}}})
+	var good []int
+	for i, k := range ks {
+		if !k.bad && k.name != "Raw" {
+			good = append(good, i)
+		}
+	}
+	try := func(idx []int) {
+		if !c.MineBlock(0) {
+			return
+		}
+		names := ""
+		for _, k := range idx {
+			names += ks[k].name + " "
+		}
+		b := ref.Builder{Type: "CompoundSequence", Shape: names, Make: func() rtcp.Packet {
+			seq := make(rtcp.CompoundPacket, len(idx))
+			for i, k := range idx {
+				seq[i] = ref.Clone(ks[k].p).(rtcp.Packet)
+			}
+			return &seq
+		}}
+		ref.Aliased(b, nil, func(v ref.V) bool {
+			c.Add(1)
+			seq := *(v.P.(*rtcp.CompoundPacket))
+			want, valid := c11RefCNAME(seq)
+			rp := func(entry, exp, obs string) bx.Replay {
+				return bx.Replay{Entry: entry, Ops: names + v.Dev, Value: ref.Dump(v.P), Expected: exp, Observed: obs}
+			}
+			var verr, cerr error
+			var got string
+			var dest []uint32
+			if msg, pan := bx.Guard(func() { verr = seq.Validate(); got, cerr = seq.CNAME(); dest = seq.DestinationSSRC() }); pan {
+				c.Report("C11/coinciding/panic", "Validate / CNAME / DestinationSSRC panics when two 32-bit fields of a compound coincide", rp("accessors", "results", msg))
+				return true
+			}
+			c.T(3)
+			ok := true
+			if (verr == nil) != valid {
+				c.Report(keyJoin("C11/coinciding/Validate", fmt.Sprint("expected-valid=", valid)), "Validate depends on a coincidence of two 32-bit fields", rp("Validate", fmt.Sprint("valid=", valid), fmt.Sprint(verr)))
+				ok = false
+			}
+			if valid && (cerr != nil || got != want) {
+				c.Report("C11/coinciding/CNAME", "CNAME() is not the text of the first CNAME item when two 32-bit fields of the compound coincide", rp("CNAME", want, fmt.Sprint(got, " ", cerr)))
+				ok = false
+			}
+			if valid && len(seq) > 0 && !u32eq(dest, ref.DestSSRC(seq[0])) {
+				c.Report("C11/coinciding/DestinationSSRC", "DestinationSSRC of the compound is not that of its first member when two 32-bit fields coincide", rp("DestinationSSRC", fmt.Sprintf("%x", ref.DestSSRC(seq[0])), fmt.Sprintf("%x", dest)))
+				ok = false
+			}
+			if ok && valid {
+				c.NT()
+			}
+			return !c.Expired()
+		})
+	}
+	for _, a := range good {
+		for _, b := range good {
+			try([]int{a, b})
+			for _, d := range good {
+				try([]int{a, b, d})
+			}
+		}
+	}
 }
